@@ -9,16 +9,44 @@ Proof. unfold full_end. lia. Qed.
 Lemma first_in_some ex lo hi m : first_in ex lo hi = Some m -> In m ex /\ lo <= fst m < hi.
 Proof. unfold first_in. intros H. apply find_some in H as [H1 H2]. split; [assumption|lia]. Qed.
 
-Lemma fill_spec : forall fuel ex bl last ts_end a pos cnt ms cnt',
-  ex_ok ex a ts_end -> a <= pos -> pos <= ts_end ->
+Lemma find_first_sorted {A} (R : A -> A -> Prop) (p : A -> bool) : forall l y x,
+  StronglySorted R l -> find p l = Some y -> In x l -> p x = true -> x = y \/ R y x.
+Proof.
+  induction l as [|z l IH]; intros y x S F Hin Hp; [contradiction|].
+  inversion S as [|? ? S' Fz]; subst. simpl in F.
+  destruct (p z) eqn:Pz.
+  - injection F as <-. destruct Hin as [->|Hin]; [left; reflexivity|].
+    right. rewrite Forall_forall in Fz. apply Fz; assumption.
+  - destruct Hin as [->|Hin]; [congruence|]. eapply IH; eassumption.
+Qed.
+
+Lemma first_in_none ex lo hi x : first_in ex lo hi = None -> In x ex -> ~ (lo <= fst x < hi).
+Proof.
+  unfold first_in. intros F Hin H.
+  pose proof (find_none _ _ F x Hin) as N. simpl in N. lia.
+Qed.
+
+Lemma last_end_m_cons m r d : last_end_m (m :: r) d = last_end_m r (m_end m).
+Proof. unfold last_end_m. destruct r as [|m' r']; [reflexivity|]. rewrite last_cons. reflexivity. Qed.
+
+Definition starts_free (ex : list (Z * Z)) (m : meas) : Prop :=
+  m_old m = false -> forall x, In x ex -> ~ (m_start m <= fst x < m_end m).
+
+(* the loop of one signature's stretch, from any position: the measures it meets or makes form a
+   chain from pos to the end of the last one, which is at or beyond the end of the stretch (an
+   existing measure may run across it) *)
+Lemma fill_spec : forall fuel ex bl last ts_end pos cnt ms cnt',
+  ex_pos ex ->
   fill fuel ex bl last ts_end pos cnt = Some (ms, cnt') ->
-  chain_from pos (spans ms) ts_end
+  chain_from pos (spans ms) (last_end_m ms pos)
+  /\ (pos < ts_end -> ts_end <= last_end_m ms pos)
   /\ map m_num ms = zrange cnt (List.length ms) /\ cnt' = cnt + Z.of_nat (List.length ms)
   /\ (forall m, In m ms -> m_old m = true -> In (span m) ex)
   /\ (forall m, In m ms -> new_ok ex bl last ts_end m)
-  /\ (forall m, In m ms -> a <= m_start m < ts_end).
+  /\ (forall m, In m ms -> pos <= m_start m < ts_end)
+  /\ (forall m, In m ms -> m_old m = false -> m_end m <= ts_end).
 Proof.
-  induction fuel as [|f IH]; intros ex bl last ts_end a pos cnt ms cnt' Hex Ha Hp H; [discriminate|].
+  induction fuel as [|f IH]; intros ex bl last ts_end pos cnt ms cnt' Hex H; [discriminate|].
   cbn [fill] in H.
   destruct (ts_end <=? pos) eqn:E.
   - injection H as <- <-. simpl. repeat split; try lia; intros m [].
@@ -27,37 +55,107 @@ Proof.
     assert (Hm : pos < mend <= ts_end) by (unfold mend; lia).
     destruct (first_in ex pos mend) as [[s e]|] eqn:EF.
     + apply first_in_some in EF as [Hin Hs]. simpl in Hs.
-      destruct (Hex _ Hin) as [Hpos Hstr]. simpl in Hpos, Hstr.
-      specialize (Hstr ltac:(lia)).
+      pose proof (Hex _ Hin) as Hpos. simpl in Hpos.
       destruct (s =? pos) eqn:Es.
       * destruct (fill f ex bl last ts_end e (cnt + 1)) as [[ms1 c1]|] eqn:EFill; simpl in H; [|discriminate].
         injection H as <- <-.
-        assert (Hae : a <= e) by lia.
-        destruct (IH _ _ _ _ a _ _ _ _ Hex Hae Hstr EFill) as (C & N & Cn & O & Nw & R).
-        simpl. refine (conj _ (conj _ (conj _ (conj _ (conj _ _))))); try lia; try (repeat split; (lia || assumption)).
-        -- f_equal. exact N.
+        destruct (IH _ _ _ _ _ _ _ _ Hex EFill) as (C & G & N & Cn & O & Nw & R & B).
+        pose proof (chain_from_le _ _ _ C) as Hle.
+        rewrite last_end_m_cons. cbn [m_end].
+        refine (conj _ (conj _ (conj _ (conj _ (conj _ (conj _ (conj _ _))))))).
+        -- simpl. repeat split; try lia. exact C.
+        -- intros _. destruct (Z_lt_dec e ts_end) as [L|L]; [specialize (G L); lia | lia].
+        -- simpl. f_equal. exact N.
+        -- simpl. lia.
         -- intros m [<-|Hm']; [intros _; unfold span; simpl; assert (s = pos) by lia; subst; assumption | apply O; assumption].
         -- intros m [<-|Hm']; [intros Ho; discriminate | apply Nw; assumption].
-        -- intros m [<-|Hm']; [simpl; lia | apply R; assumption].
+        -- intros m [<-|Hm']; [simpl; lia | specialize (R m Hm'); lia].
+        -- intros m [<-|Hm']; [intros Ho; discriminate | apply B; assumption].
       * destruct (fill f ex bl last ts_end e (cnt + 2)) as [[ms1 c1]|] eqn:EFill; simpl in H; [|discriminate].
         injection H as <- <-.
-        assert (Hae : a <= e) by lia.
-        destruct (IH _ _ _ _ a _ _ _ _ Hex Hae Hstr EFill) as (C & N & Cn & O & Nw & R).
-        simpl. refine (conj _ (conj _ (conj _ (conj _ (conj _ _))))); try lia; try (repeat split; (lia || assumption)).
-        -- f_equal. f_equal. replace (cnt + 1 + 1) with (cnt + 2) by lia. exact N.
+        destruct (IH _ _ _ _ _ _ _ _ Hex EFill) as (C & G & N & Cn & O & Nw & R & B).
+        pose proof (chain_from_le _ _ _ C) as Hle.
+        rewrite !last_end_m_cons. cbn [m_end].
+        refine (conj _ (conj _ (conj _ (conj _ (conj _ (conj _ (conj _ _))))))).
+        -- simpl. repeat split; try lia. exact C.
+        -- intros _. destruct (Z_lt_dec e ts_end) as [L|L]; [specialize (G L); lia | lia].
+        -- simpl. f_equal. f_equal. replace (cnt + 1 + 1) with (cnt + 2) by lia. exact N.
+        -- simpl. lia.
         -- intros m [<-|[<-|Hm']]; [intros Ho; discriminate | intros _; exact Hin | apply O; assumption].
         -- intros m [<-|[<-|Hm']]; [| intros Ho; discriminate | apply Nw; assumption].
            intros _. right. simpl. fold mend. split; [lia|]. exists (s, e). split; [assumption|reflexivity].
-        -- intros m [<-|[<-|Hm']]; [simpl; lia | simpl; lia | apply R; assumption].
+        -- intros m [<-|[<-|Hm']]; [simpl; lia | simpl; lia | specialize (R m Hm'); lia].
+        -- intros m [<-|[<-|Hm']]; [intros _; simpl; lia | intros Ho; discriminate | apply B; assumption].
     + destruct (fill f ex bl last ts_end mend (cnt + 1)) as [[ms1 c1]|] eqn:EFill; simpl in H; [|discriminate].
       injection H as <- <-.
-      assert (Hae : a <= mend) by lia. assert (Hme : mend <= ts_end) by lia.
-      destruct (IH _ _ _ _ a _ _ _ _ Hex Hae Hme EFill) as (C & N & Cn & O & Nw & R).
-      simpl. refine (conj _ (conj _ (conj _ (conj _ (conj _ _))))); try lia; try (repeat split; (lia || assumption)).
-      * f_equal. exact N.
+      destruct (IH _ _ _ _ _ _ _ _ Hex EFill) as (C & G & N & Cn & O & Nw & R & B).
+      pose proof (chain_from_le _ _ _ C) as Hle.
+      rewrite last_end_m_cons. cbn [m_end].
+      refine (conj _ (conj _ (conj _ (conj _ (conj _ (conj _ (conj _ _))))))).
+      * simpl. repeat split; try lia. exact C.
+      * intros _. destruct (Z_lt_dec mend ts_end) as [L|L]; [specialize (G L); lia | lia].
+      * simpl. f_equal. exact N.
+      * simpl. lia.
       * intros m [<-|Hm']; [intros Ho; discriminate | apply O; assumption].
       * intros m [<-|Hm']; [| apply Nw; assumption]. intros _. left. reflexivity.
-      * intros m [<-|Hm']; [simpl; lia | apply R; assumption].
+      * intros m [<-|Hm']; [simpl; lia | specialize (R m Hm'); lia].
+      * intros m [<-|Hm']; [intros _; simpl; lia | apply B; assumption].
+Qed.
+
+(* a new measure contains the start of no existing measure *)
+Lemma fill_new_free : forall fuel ex bl last ts_end pos cnt ms cnt',
+  ex_sorted ex -> ex_pos ex ->
+  fill fuel ex bl last ts_end pos cnt = Some (ms, cnt') ->
+  forall m, In m ms -> starts_free ex m.
+Proof.
+  induction fuel as [|f IH]; intros ex bl last ts_end pos cnt ms cnt' Hso Hex H; [discriminate|].
+  cbn [fill] in H.
+  destruct (ts_end <=? pos) eqn:E.
+  - injection H as <- <-. intros m [].
+  - set (mend := Z.min ts_end (full_end bl last pos)) in *.
+    pose proof (full_end_gt bl last pos) as Hfe.
+    assert (Hm : pos < mend <= ts_end) by (unfold mend; lia).
+    destruct (first_in ex pos mend) as [[s e]|] eqn:EF.
+    + pose proof EF as EF0. apply first_in_some in EF as [Hin Hs]. simpl in Hs.
+      pose proof (Hex _ Hin) as Hpos. simpl in Hpos.
+      destruct (s =? pos) eqn:Es.
+      * destruct (fill f ex bl last ts_end e (cnt + 1)) as [[ms1 c1]|] eqn:EFill; simpl in H; [|discriminate].
+        injection H as <- <-.
+        pose proof (IH _ _ _ _ _ _ _ _ Hso Hex EFill) as F.
+        intros m [<-|Hm']; [intros Ho; discriminate | apply F; assumption].
+      * destruct (fill f ex bl last ts_end e (cnt + 2)) as [[ms1 c1]|] eqn:EFill; simpl in H; [|discriminate].
+        injection H as <- <-.
+        pose proof (IH _ _ _ _ _ _ _ _ Hso Hex EFill) as F.
+        intros m [<-|[<-|Hm']]; [| intros Ho; discriminate | apply F; assumption].
+        intros _ x Hx Hr. simpl in Hr.
+        unfold first_in in EF0.
+        destruct (find_first_sorted _ _ ex (s, e) x Hso EF0 Hx ltac:(simpl; lia)) as [->|R]; simpl in *; lia.
+    + destruct (fill f ex bl last ts_end mend (cnt + 1)) as [[ms1 c1]|] eqn:EFill; simpl in H; [|discriminate].
+      injection H as <- <-.
+      pose proof (IH _ _ _ _ _ _ _ _ Hso Hex EFill) as F.
+      intros m [<-|Hm']; [| apply F; assumption].
+      intros _ x Hx Hr. simpl in Hr. exact (first_in_none ex pos mend x EF Hx Hr).
+Qed.
+
+Lemma fill_total : forall fuel ex bl last ts_end pos cnt,
+  ex_pos ex -> (Z.to_nat (ts_end - pos) < fuel)%nat ->
+  fill fuel ex bl last ts_end pos cnt <> None.
+Proof.
+  induction fuel as [|f IH]; intros ex bl last ts_end pos cnt Hex Hf; [lia|].
+  cbn [fill]. destruct (ts_end <=? pos) eqn:E; [discriminate|].
+  set (mend := Z.min ts_end (full_end bl last pos)).
+  pose proof (full_end_gt bl last pos) as Hfe.
+  assert (Hm : pos < mend <= ts_end) by (unfold mend; lia).
+  destruct (first_in ex pos mend) as [[s e]|] eqn:EF.
+  - apply first_in_some in EF as [Hin Hs]. simpl in Hs.
+    pose proof (Hex _ Hin) as Hpos. simpl in Hpos.
+    destruct (s =? pos) eqn:Es.
+    + pose proof (IH ex bl last ts_end e (cnt + 1) Hex ltac:(lia)) as N.
+      destruct (fill f ex bl last ts_end e (cnt + 1)); [discriminate|congruence].
+    + pose proof (IH ex bl last ts_end e (cnt + 2) Hex ltac:(lia)) as N.
+      destruct (fill f ex bl last ts_end e (cnt + 2)); [discriminate|congruence].
+  - pose proof (IH ex bl last ts_end mend (cnt + 1) Hex ltac:(lia)) as N.
+    destruct (fill f ex bl last ts_end mend (cnt + 1)); [discriminate|congruence].
 Qed.
 
 Lemma chain_from_app : forall l1 l2 a b c, chain_from a l1 b -> chain_from b l2 c -> chain_from a (l1 ++ l2) c.
@@ -74,41 +172,70 @@ Proof.
   - f_equal. rewrite IH. f_equal. f_equal. lia.
 Qed.
 
-Lemma chain_last_end : forall ms a b, chain_from a (spans ms) b -> last_end_m ms a = b.
+Lemma last_end_m_app ms1 ms2 d : last_end_m (ms1 ++ ms2) d = last_end_m ms2 (last_end_m ms1 d).
 Proof.
-  induction ms as [|m r IH]; intros a b C; simpl in C; [exact C|].
-  destruct C as (_ & _ & C). specialize (IH _ _ C).
-  unfold last_end_m in *. destruct r as [|m' r']; [exact IH|].
-  rewrite last_cons. exact IH.
+  revert d; induction ms1 as [|m r IH]; intros d; [reflexivity|].
+  change ((m :: r) ++ ms2) with (m :: (r ++ ms2)). rewrite !last_end_m_cons. apply IH.
 Qed.
 
-Lemma fill_all_spec : forall ss ex last cnt ms A B,
-  ex_ok_all ex ss -> chain_from A (map st_span ss) B ->
-  fill_all ex last ss cnt A = Some ms ->
-  chain_from A (spans ms) B
+(* all stretches: the position is carried over *)
+Lemma fill_all_spec : forall ss ex last cnt pos ms A B,
+  ex_pos ex -> chain_from A (map st_span ss) B -> A <= pos ->
+  fill_all ex last ss cnt pos = Some ms ->
+  chain_from pos (spans ms) (last_end_m ms pos)
+  /\ B <= last_end_m ms pos
   /\ map m_num ms = zrange cnt (List.length ms)
   /\ (forall m, In m ms -> m_old m = true -> In (span m) ex)
-  /\ (forall m, In m ms -> new_ok_all ex last ss m).
+  /\ (forall m, In m ms -> new_ok_all ex last ss m)
+  /\ (forall m, In m ms -> m_old m = false -> m_end m <= B).
 Proof.
-  induction ss as [|[[a b] bl] ss IH]; intros ex last cnt ms A B Hex C H.
-  - simpl in H. injection H as <-. simpl in *. repeat split; auto; intros m [].
+  induction ss as [|[[a b] bl] ss IH]; intros ex last cnt pos ms A B Hex C Hp H.
+  - simpl in H. injection H as <-. simpl in *. subst. repeat split; auto; try lia; intros m [].
   - cbn [fill_all] in H.
-    simpl in C. destruct C as (Ea & Lab & C). subst A. rewrite Z.max_id in H.
-    destruct (fill (S (Z.to_nat (b - a))) ex bl last b a cnt) as [[ms1 c1]|] eqn:EF; simpl in H; [|discriminate].
-    assert (Hex1 : ex_ok ex a b) by (apply (Hex (a, b, bl)); left; reflexivity).
-    destruct (fill_spec _ _ _ _ _ a _ _ _ _ Hex1 (Z.le_refl a) ltac:(lia) EF) as (C1 & N1 & Cn & O1 & Nw1 & R1).
-    rewrite (chain_last_end _ _ _ C1) in H.
-    destruct (fill_all ex last ss c1 b) as [ms2|] eqn:EA; simpl in H; [|discriminate].
+    simpl in C. destruct C as (Ea & Lab & C). subst A. rewrite Z.max_r in H by lia.
+    destruct (fill (S (Z.to_nat (b - pos))) ex bl last b pos cnt) as [[ms1 c1]|] eqn:EF; simpl in H; [|discriminate].
+    destruct (fill_spec _ _ _ _ _ _ _ _ _ Hex EF) as (C1 & G1 & N1 & Cn & O1 & Nw1 & R1 & B1).
+    destruct (fill_all ex last ss c1 (last_end_m ms1 pos)) as [ms2|] eqn:EA; simpl in H; [|discriminate].
     injection H as <-.
-    assert (Hex2 : ex_ok_all ex ss) by (intros s Hs; apply Hex; right; assumption).
-    destruct (IH ex last c1 ms2 b B Hex2 C EA) as (C2 & N2 & O2 & Nw2).
-    refine (conj _ (conj _ (conj _ _))).
+    assert (Hb : b <= last_end_m ms1 pos).
+    { destruct (Z_lt_dec pos b) as [L|L]; [exact (G1 L)|]. pose proof (chain_from_le _ _ _ C1). lia. }
+    destruct (IH ex last c1 _ ms2 b B Hex C Hb EA) as (C2 & G2 & N2 & O2 & Nw2 & B2).
+    pose proof (chain_from_le _ _ _ C) as HbB.
+    rewrite last_end_m_app.
+    refine (conj _ (conj _ (conj _ (conj _ (conj _ _))))).
     + unfold spans. rewrite map_app. eapply chain_from_app; eassumption.
+    + exact G2.
     + rewrite map_app, app_length, zrange_app, N1, N2, Cn. reflexivity.
     + intros m Hm. apply in_app_or in Hm as [Hm|Hm]; [apply O1 | apply O2]; assumption.
     + intros m Hm Ho. apply in_app_or in Hm as [Hm|Hm].
-      * exists (a, b, bl). split; [left; reflexivity|]. split; [apply R1; assumption|]. apply Nw1; assumption.
+      * exists (a, b, bl). split; [left; reflexivity|]. split; [simpl; specialize (R1 m Hm); lia|]. apply Nw1; assumption.
       * destruct (Nw2 m Hm Ho) as (s & Hs & R & Nw). exists s. split; [right; assumption|]. split; assumption.
+    + intros m Hm Ho. apply in_app_or in Hm as [Hm|Hm]; [specialize (B1 m Hm Ho); lia | apply B2; assumption].
+Qed.
+
+Lemma fill_all_new_free : forall ss ex last cnt pos ms,
+  ex_sorted ex -> ex_pos ex ->
+  fill_all ex last ss cnt pos = Some ms -> forall m, In m ms -> starts_free ex m.
+Proof.
+  induction ss as [|[[a b] bl] ss IH]; intros ex last cnt pos ms Hso Hex H.
+  - simpl in H. injection H as <-. intros m [].
+  - cbn [fill_all] in H.
+    destruct (fill (S (Z.to_nat (b - Z.max a pos))) ex bl last b (Z.max a pos) cnt) as [[ms1 c1]|] eqn:EF; simpl in H; [|discriminate].
+    destruct (fill_all ex last ss c1 (last_end_m ms1 (Z.max a pos))) as [ms2|] eqn:EA; simpl in H; [|discriminate].
+    injection H as <-.
+    intros m Hm. apply in_app_or in Hm as [Hm|Hm].
+    + exact (fill_new_free _ _ _ _ _ _ _ _ _ Hso Hex EF m Hm).
+    + exact (IH ex last c1 _ ms2 Hso Hex EA m Hm).
+Qed.
+
+Lemma fill_all_total : forall ss ex last cnt pos, ex_pos ex -> fill_all ex last ss cnt pos <> None.
+Proof.
+  induction ss as [|[[a b] bl] ss IH]; intros ex last cnt pos Hex; [discriminate|].
+  cbn [fill_all].
+  pose proof (fill_total (S (Z.to_nat (b - Z.max a pos))) ex bl last b (Z.max a pos) cnt Hex ltac:(lia)) as N.
+  destruct (fill (S (Z.to_nat (b - Z.max a pos))) ex bl last b (Z.max a pos) cnt) as [[ms1 c1]|]; [|congruence]. simpl.
+  pose proof (IH ex last c1 (last_end_m ms1 (Z.max a pos)) Hex) as N2.
+  destruct (fill_all ex last ss c1 (last_end_m ms1 (Z.max a pos))); [discriminate|congruence].
 Qed.
 
 (* ---- the stretches *)
@@ -209,44 +336,61 @@ Proof.
   destruct (first =? last) eqn:E; [lia|reflexivity].
 Qed.
 
-Lemma measures_tile_lemma div tsigs first last ex ms :
-  pre tsigs first last ex div -> add_measures div tsigs first last ex = Some ms ->
-  chain_from first (spans ms) last.
+Lemma last_In : forall (m : meas) r, In (List.last r m) (m :: r).
 Proof.
-  intros [T X] H. pose proof T as (N & L & _).
+  intros m r; revert m; induction r as [|x r' IH]; intros m; [left; reflexivity|].
+  rewrite last_cons. right. apply IH.
+Qed.
+
+(* everything fill_all_spec gives, at the top level: the chain ends exactly at the last point *)
+Lemma add_measures_spec div tsigs first last ex ms :
+  pre tsigs first last ex -> add_measures div tsigs first last ex = Some ms ->
+  chain_from first (spans ms) last
+  /\ map m_num ms = zrange 1 (List.length ms)
+  /\ (forall m, In m ms -> m_old m = true -> In (span m) ex)
+  /\ (forall m, In m ms -> new_ok_all ex last (stretches div tsigs first last) m).
+Proof.
+  intros (T & Hex & Hw) H. pose proof T as (N & L & _).
   rewrite add_measures_unfold in H by assumption.
   destruct (stretches_chain div tsigs first last T) as [C _].
-  apply (fill_all_spec _ _ _ _ _ _ _ X C H).
+  destruct (fill_all_spec _ _ _ _ _ _ _ _ Hex C (Z.le_refl first) H) as (C1 & G & Nn & O & Nw & B).
+  assert (E : last_end_m ms first = last).
+  { apply Z.le_antisymm; [|exact G].
+    destruct ms as [|m0 r]; [simpl in G; lia|].
+    pose proof (last_In m0 r) as Hl. unfold last_end_m.
+    destruct (m_old (List.last r m0)) eqn:Eo.
+    - pose proof (O _ Hl Eo) as Hin. destruct (Hw _ Hin) as [_ W]. unfold span in W; simpl in W. exact W.
+    - exact (B _ Hl Eo). }
+  rewrite E in C1. repeat split; assumption.
 Qed.
+
+Lemma measures_tile_lemma div tsigs first last ex ms :
+  pre tsigs first last ex -> add_measures div tsigs first last ex = Some ms ->
+  chain_from first (spans ms) last.
+Proof. intros P H. apply (add_measures_spec _ _ _ _ _ _ P H). Qed.
 
 Lemma measures_numbered_lemma div tsigs first last ex ms :
-  pre tsigs first last ex div -> add_measures div tsigs first last ex = Some ms ->
+  pre tsigs first last ex -> add_measures div tsigs first last ex = Some ms ->
   map m_num ms = zrange 1 (List.length ms).
-Proof.
-  intros [T X] H. pose proof T as (N & L & _).
-  rewrite add_measures_unfold in H by assumption.
-  destruct (stretches_chain div tsigs first last T) as [C _].
-  apply (fill_all_spec _ _ _ _ _ _ _ X C H).
-Qed.
+Proof. intros P H. apply (add_measures_spec _ _ _ _ _ _ P H). Qed.
 
 Lemma measures_old_lemma div tsigs first last ex ms :
-  pre tsigs first last ex div -> add_measures div tsigs first last ex = Some ms ->
+  pre tsigs first last ex -> add_measures div tsigs first last ex = Some ms ->
   forall m, In m ms -> m_old m = true -> In (span m) ex.
-Proof.
-  intros [T X] H. pose proof T as (N & L & _).
-  rewrite add_measures_unfold in H by assumption.
-  destruct (stretches_chain div tsigs first last T) as [C _].
-  apply (fill_all_spec _ _ _ _ _ _ _ X C H).
-Qed.
+Proof. intros P H. apply (add_measures_spec _ _ _ _ _ _ P H). Qed.
 
 Lemma new_measure_length_lemma div tsigs first last ex ms :
-  pre tsigs first last ex div -> add_measures div tsigs first last ex = Some ms ->
+  pre tsigs first last ex -> add_measures div tsigs first last ex = Some ms ->
   forall m, In m ms -> new_ok_all ex last (stretches div tsigs first last) m.
+Proof. intros P H. apply (add_measures_spec _ _ _ _ _ _ P H). Qed.
+
+Lemma add_measures_total_lemma div tsigs first last ex :
+  pre tsigs first last ex -> exists ms, add_measures div tsigs first last ex = Some ms.
 Proof.
-  intros [T X] H. pose proof T as (N & L & _).
-  rewrite add_measures_unfold in H by assumption.
-  destruct (stretches_chain div tsigs first last T) as [C _].
-  apply (fill_all_spec _ _ _ _ _ _ _ X C H).
+  intros (T & Hex & _). pose proof T as (N & L & _).
+  rewrite add_measures_unfold by assumption.
+  pose proof (fill_all_total (stretches div tsigs first last) ex last 1 first Hex) as H.
+  destruct (fill_all ex last (stretches div tsigs first last) 1 first) as [ms|]; [eauto|congruence].
 Qed.
 
 (* a bar that is a whole number B >= 1 of divisions: the full bar ends B divisions on, or at the last point *)
@@ -274,132 +418,6 @@ Proof.
   - eapply IH; eassumption.
 Qed.
 
-
-(* ---- totality: the fuel add_measures gives fill always suffices *)
-Lemma fill_total : forall fuel ex bl last ts_end a pos cnt,
-  ex_ok ex a ts_end -> a <= pos -> pos <= ts_end -> (Z.to_nat (ts_end - pos) < fuel)%nat ->
-  fill fuel ex bl last ts_end pos cnt <> None.
-Proof.
-  induction fuel as [|f IH]; intros ex bl last ts_end a pos cnt Hex Ha Hp Hf; [lia|].
-  cbn [fill]. destruct (ts_end <=? pos) eqn:E; [discriminate|].
-  set (mend := Z.min ts_end (full_end bl last pos)).
-  pose proof (full_end_gt bl last pos) as Hfe.
-  assert (Hm : pos < mend <= ts_end) by (unfold mend; lia).
-  destruct (first_in ex pos mend) as [[s e]|] eqn:EF.
-  - apply first_in_some in EF as [Hin Hs]. simpl in Hs.
-    destruct (Hex _ Hin) as [Hpos Hstr]. simpl in Hpos, Hstr. specialize (Hstr ltac:(lia)).
-    destruct (s =? pos) eqn:Es.
-    + pose proof (IH ex bl last ts_end a e (cnt + 1) Hex ltac:(lia) Hstr ltac:(lia)) as N.
-      destruct (fill f ex bl last ts_end e (cnt + 1)); [discriminate|congruence].
-    + pose proof (IH ex bl last ts_end a e (cnt + 2) Hex ltac:(lia) Hstr ltac:(lia)) as N.
-      destruct (fill f ex bl last ts_end e (cnt + 2)); [discriminate|congruence].
-  - pose proof (IH ex bl last ts_end a mend (cnt + 1) Hex ltac:(lia) ltac:(lia) ltac:(lia)) as N.
-    destruct (fill f ex bl last ts_end mend (cnt + 1)); [discriminate|congruence].
-Qed.
-
-Lemma fill_all_total : forall ss ex last cnt A B,
-  ex_ok_all ex ss -> chain_from A (map st_span ss) B -> fill_all ex last ss cnt A <> None.
-Proof.
-  induction ss as [|[[a b] bl] ss IH]; intros ex last cnt A B Hex C; [discriminate|].
-  cbn [fill_all]. simpl in C. destruct C as (Ea & Lab & C). subst A. rewrite Z.max_id.
-  assert (Hex1 : ex_ok ex a b) by (apply (Hex (a, b, bl)); left; reflexivity).
-  pose proof (fill_total (S (Z.to_nat (b - a))) ex bl last b a a cnt Hex1 (Z.le_refl a) ltac:(lia) ltac:(lia)) as N.
-  destruct (fill (S (Z.to_nat (b - a))) ex bl last b a cnt) as [[ms1 c1]|] eqn:EF; [|congruence]. simpl.
-  destruct (fill_spec _ _ _ _ _ a _ _ _ _ Hex1 (Z.le_refl a) ltac:(lia) EF) as (C1 & _).
-  rewrite (chain_last_end _ _ _ C1).
-  assert (Hex2 : ex_ok_all ex ss) by (intros s Hs; apply Hex; right; assumption).
-  pose proof (IH ex last c1 b B Hex2 C) as N2.
-  destruct (fill_all ex last ss c1 b); [discriminate|congruence].
-Qed.
-
-Lemma add_measures_total_lemma div tsigs first last ex :
-  pre tsigs first last ex div -> exists ms, add_measures div tsigs first last ex = Some ms.
-Proof.
-  intros [T X]. pose proof T as (N & L & _).
-  rewrite add_measures_unfold by assumption.
-  destruct (stretches_chain div tsigs first last T) as [C _].
-  pose proof (fill_all_total _ ex last 1 _ _ X C) as H.
-  destruct (fill_all ex last (stretches div tsigs first last) 1 first) as [ms|]; [eauto|congruence].
-Qed.
-
-(* ---- a new measure contains the start of no existing measure *)
-Lemma find_first_sorted {A} (R : A -> A -> Prop) (p : A -> bool) : forall l y x,
-  StronglySorted R l -> find p l = Some y -> In x l -> p x = true -> x = y \/ R y x.
-Proof.
-  induction l as [|z l IH]; intros y x S F Hin Hp; [contradiction|].
-  inversion S as [|? ? S' Fz]; subst. simpl in F.
-  destruct (p z) eqn:Pz.
-  - injection F as <-. destruct Hin as [->|Hin]; [left; reflexivity|].
-    right. rewrite Forall_forall in Fz. apply Fz; assumption.
-  - destruct Hin as [->|Hin]; [congruence|]. eapply IH; eassumption.
-Qed.
-
-Lemma first_in_none ex lo hi x : first_in ex lo hi = None -> In x ex -> ~ (lo <= fst x < hi).
-Proof.
-  unfold first_in. intros F Hin H.
-  pose proof (find_none _ _ F x Hin) as N. simpl in N. lia.
-Qed.
-
-Definition starts_free (ex : list (Z * Z)) (m : meas) : Prop :=
-  m_old m = false -> forall x, In x ex -> ~ (m_start m <= fst x < m_end m).
-
-Lemma fill_new_free : forall fuel ex bl last ts_end a pos cnt ms cnt',
-  ex_sorted ex -> ex_ok ex a ts_end -> a <= pos -> pos <= ts_end ->
-  fill fuel ex bl last ts_end pos cnt = Some (ms, cnt') ->
-  forall m, In m ms -> starts_free ex m.
-Proof.
-  induction fuel as [|f IH]; intros ex bl last ts_end a pos cnt ms cnt' Hso Hex Ha Hp H; [discriminate|].
-  cbn [fill] in H.
-  destruct (ts_end <=? pos) eqn:E.
-  - injection H as <- <-. intros m [].
-  - set (mend := Z.min ts_end (full_end bl last pos)) in *.
-    pose proof (full_end_gt bl last pos) as Hfe.
-    assert (Hm : pos < mend <= ts_end) by (unfold mend; lia).
-    destruct (first_in ex pos mend) as [[s e]|] eqn:EF.
-    + pose proof EF as EF0. apply first_in_some in EF as [Hin Hs]. simpl in Hs.
-      destruct (Hex _ Hin) as [Hpos Hstr]. simpl in Hpos, Hstr. specialize (Hstr ltac:(lia)).
-      destruct (s =? pos) eqn:Es.
-      * destruct (fill f ex bl last ts_end e (cnt + 1)) as [[ms1 c1]|] eqn:EFill; simpl in H; [|discriminate].
-        injection H as <- <-.
-        assert (Hae : a <= e) by lia.
-        pose proof (IH _ _ _ _ a _ _ _ _ Hso Hex Hae Hstr EFill) as F.
-        intros m [<-|Hm']; [intros Ho; discriminate | apply F; assumption].
-      * destruct (fill f ex bl last ts_end e (cnt + 2)) as [[ms1 c1]|] eqn:EFill; simpl in H; [|discriminate].
-        injection H as <- <-.
-        assert (Hae : a <= e) by lia.
-        pose proof (IH _ _ _ _ a _ _ _ _ Hso Hex Hae Hstr EFill) as F.
-        intros m [<-|[<-|Hm']]; [| intros Ho; discriminate | apply F; assumption].
-        intros _ x Hx Hr. simpl in Hr.
-        unfold first_in in EF0.
-        destruct (find_first_sorted _ _ ex (s, e) x Hso EF0 Hx ltac:(simpl; lia)) as [->|R]; simpl in *; lia.
-    + destruct (fill f ex bl last ts_end mend (cnt + 1)) as [[ms1 c1]|] eqn:EFill; simpl in H; [|discriminate].
-      injection H as <- <-.
-      assert (Hae : a <= mend) by lia. assert (Hme : mend <= ts_end) by lia.
-      pose proof (IH _ _ _ _ a _ _ _ _ Hso Hex Hae Hme EFill) as F.
-      intros m [<-|Hm']; [| apply F; assumption].
-      intros _ x Hx Hr. simpl in Hr. exact (first_in_none ex pos mend x EF Hx Hr).
-Qed.
-
-Lemma fill_all_new_free : forall ss ex last cnt ms A B,
-  ex_sorted ex -> ex_ok_all ex ss -> chain_from A (map st_span ss) B ->
-  fill_all ex last ss cnt A = Some ms -> forall m, In m ms -> starts_free ex m.
-Proof.
-  induction ss as [|[[a b] bl] ss IH]; intros ex last cnt ms A B Hso Hex C H.
-  - simpl in H. injection H as <-. intros m [].
-  - cbn [fill_all] in H.
-    simpl in C. destruct C as (Ea & Lab & C). subst A. rewrite Z.max_id in H.
-    destruct (fill (S (Z.to_nat (b - a))) ex bl last b a cnt) as [[ms1 c1]|] eqn:EF; simpl in H; [|discriminate].
-    assert (Hex1 : ex_ok ex a b) by (apply (Hex (a, b, bl)); left; reflexivity).
-    destruct (fill_spec _ _ _ _ _ a _ _ _ _ Hex1 (Z.le_refl a) ltac:(lia) EF) as (C1 & _).
-    rewrite (chain_last_end _ _ _ C1) in H.
-    destruct (fill_all ex last ss c1 b) as [ms2|] eqn:EA; simpl in H; [|discriminate].
-    injection H as <-.
-    assert (Hex2 : ex_ok_all ex ss) by (intros s Hs; apply Hex; right; assumption).
-    intros m Hm. apply in_app_or in Hm as [Hm|Hm].
-    + exact (fill_new_free _ _ _ _ _ a _ _ _ _ Hso Hex1 (Z.le_refl a) ltac:(lia) EF m Hm).
-    + exact (IH ex last c1 ms2 b B Hso Hex2 C EA m Hm).
-Qed.
-
 (* sorted, positive-length existing measures do not overlap *)
 Lemma ex_sorted_disjoint : forall ex, ex_sorted ex -> (forall m, In m ex -> fst m < snd m) ->
   forall x y, In x ex -> In y ex -> fst x <= fst y < snd x -> x = y.
@@ -414,33 +432,26 @@ Proof.
   - eapply IH; eassumption.
 Qed.
 
-(* existing measures are kept: every existing measure that starts inside [first, last) is one of
-   the measures afterwards, with the same extent *)
+(* existing measures are kept: every existing measure is one of the measures afterwards, with the
+   same extent *)
 Lemma existing_kept_lemma div tsigs first last ex ms :
-  pre tsigs first last ex div -> ex_sorted ex ->
+  pre tsigs first last ex -> ex_sorted ex ->
   add_measures div tsigs first last ex = Some ms ->
-  forall x, In x ex -> first <= fst x < last ->
-  exists m, In m ms /\ m_old m = true /\ span m = x.
+  forall x, In x ex -> exists m, In m ms /\ m_old m = true /\ span m = x.
 Proof.
-  intros P Hso H x Hx Hr.
+  intros P Hso H x Hx.
   pose proof (measures_tile_lemma _ _ _ _ _ _ P H) as C.
   pose proof (measures_old_lemma _ _ _ _ _ _ P H) as O.
-  destruct P as [T X]. pose proof T as (N & L & _).
+  destruct P as (T & Hex & Hw). pose proof T as (N & L & _).
   rewrite add_measures_unfold in H by assumption.
-  destruct (stretches_chain div tsigs first last T) as [CS _].
-  pose proof (fill_all_new_free _ _ _ _ _ _ _ Hso X CS H) as NF.
+  pose proof (fill_all_new_free _ _ _ _ _ _ Hso Hex H) as NF.
+  assert (Hr : first <= fst x < last) by (destruct (Hw x Hx); pose proof (Hex x Hx); lia).
   destruct (chain_from_locate _ _ _ (fst x) C Hr) as (sp & Hsp & Hin & _).
   unfold spans in Hsp. apply in_map_iff in Hsp as (m & <- & Hm).
   exists m. split; [exact Hm|].
   destruct (m_old m) eqn:Eo.
   - split; [reflexivity|].
-    assert (Pos : forall z, In z ex -> fst z < snd z).
-    { intros z Hz.
-      (* positive length: from ex_ok of any stretch *)
-      destruct (stretches div tsigs first last) as [|s0 ss] eqn:Es.
-      - simpl in CS. lia.
-      - apply (X s0 (or_introl eq_refl) z Hz). }
-    apply (ex_sorted_disjoint ex Hso Pos (span m) x (O m Hm Eo) Hx). unfold span in *. simpl in *. exact Hin.
+    apply (ex_sorted_disjoint ex Hso Hex (span m) x (O m Hm Eo) Hx). unfold span in *. simpl in *. exact Hin.
   - exfalso. apply (NF m Hm Eo x Hx). unfold span in Hin; simpl in Hin. exact Hin.
 Qed.
 
